@@ -14,6 +14,7 @@ REGISTRY = {
     'C02': ('c02', []),
     'C18': ('c18', []),
     'C10': ('c10', []),
+    'C03': ('c03', ['rounding allowance 2^-30 * 64 * (sum|coef*monomial| + 1) for the comparison with the exact polynomial value']),
     'C05': ('c05', ['rounding bound of DESIGN 3.3: |float - exact| <= 2^-30 * sum|terms| (harness/lagr.py)']),
 }
 
